@@ -507,9 +507,38 @@ func (fc *FCtx) specCall(n *SNode, env *Env) Val {
 			oos("spec: has() on %s", args[0].S.Name)
 		}
 		return Val{T: fmt.Sprintf("(select %s %s)", mpDom(args[0]), args[1].T), S: SBool}
+	case "iskey", "keyarg":
+		key, sig := fc.specKeyFn(n.Args[1], env)
+		// make sure the key function symbol and its axioms exist: apply to dummy bound variables is not
+		// possible here, so declare through a direct call with fresh constants
+		var dummies []Val
+		for i := 0; i < sig.Params().Len(); i++ {
+			s := fc.U.SortOf(sig.Params().At(i).Type())
+			dummies = append(dummies, Val{T: fc.U.Const(fmt.Sprintf("kd_%s_%d", sanitize(shortPkg(key)), i), s), S: s})
+		}
+		fc.keyFnApply(key, dummies)
+		kv := fc.specEval(n.Args[2], env)
+		if fn.Name == "iskey" {
+			return Val{T: fmt.Sprintf("(= (key_tag %s) %d)", fc.toBz(kv), fc.keyTag(key)), S: SBool}
+		}
+		if n.Args[3].Op != "num" {
+			oos("spec: keyarg index must be a literal")
+		}
+		var idx int
+		fmt.Sscan(n.Args[3].Name, &idx)
+		pt := sig.Params().At(idx).Type()
+		return Val{T: fmt.Sprintf("(key_%s_inv%d %s)", sanitize(shortPkg(key)), idx, fc.toBz(kv)), S: fc.U.SortOf(pt), GoT: pt}
 	case "enc":
 		evalArgs()
 		return Val{T: app(fc.encFn(args[0].S), args[0].T), S: fc.U.BzSort()}
+	case "zero":
+		tn := n.Args[1]
+		name := tn.Name
+		if tn.Op == "field" {
+			name = tn.Args[0].Name + "." + tn.Name
+		}
+		s, t := fc.resolveSpecType(name, env.pkg)
+		return Val{T: fc.zeroTerm(s, t), S: s, GoT: t}
 	case "dec":
 		tn := n.Args[1]
 		name := tn.Name
@@ -590,6 +619,17 @@ func (fc *FCtx) specCall(n *SNode, env *Env) Val {
 
 // specMethod: intrinsic methods usable inside specs (time, big ints, strings).
 func (fc *FCtx) specMethod(recv Val, name string, args []Val) (Val, bool) {
+	if recv.S.Kind == KOpaque && recv.S.Name == "Ctx" {
+		fc.ctxTheory()
+		switch name {
+		case "BlockTime":
+			return Val{T: app("ctx_blocktime", recv.T), S: SInt, GoT: fc.E.timeType()}, true
+		case "BlockHeight":
+			return Val{T: app("ctx_blockheight", recv.T), S: SInt}, true
+		case "ChainID":
+			return Val{T: app("ctx_chainid", recv.T), S: SStr}, true
+		}
+	}
 	if recv.GoT != nil && isTime(recv.GoT) || (recv.GoT == nil && recv.S.Kind == KInt) {
 		switch name {
 		case "Unix":
@@ -703,4 +743,30 @@ func (fc *FCtx) importByName(pkg *packages.Package, q string) *types.Package {
 		}
 	}
 	return nil
+}
+
+// specKeyFn resolves a (possibly qualified) key function name used as an argument of iskey/keyarg.
+func (fc *FCtx) specKeyFn(n *SNode, env *Env) (string, *types.Signature) {
+	var key string
+	switch n.Op {
+	case "id":
+		key = env.pkg.PkgPath + "." + n.Name
+	case "field":
+		p := fc.importByName(env.pkg, n.Args[0].Name)
+		if p == nil {
+			oos("spec: unknown package %s", n.Args[0].Name)
+		}
+		key = p.Path() + "." + n.Name
+	default:
+		oos("spec: key function name expected")
+	}
+	c := fc.E.cs.Funcs[key]
+	if c == nil || c.Flags["keyfn"] == "" {
+		oos("spec: %s is not a declared key function", key)
+	}
+	fi := fc.E.funcs[key]
+	if fi == nil {
+		oos("spec: key function %s not loaded", key)
+	}
+	return key, fi.Sig
 }
